@@ -177,7 +177,7 @@ example (junk : Int → Nat → Wv → (Int → T) → Int → T) : ∃ m1,
   all_goals exact memDemo_inputs 6 (Or.inr rfl)
 
 /-! ## accumulated activity of a whole `c_prop` (both code paths)
-`WaveIO.cpuCProp` / `gpuCProp` = `WaveSim.c_prop` / `WaveSimCuda.c_prop` of Model/WaveIO.lean (tied raw-array-wise by C06 `path-tie`);
+`WaveIO.cpuCProp` / `gpuCProp` = `WaveSim.c_prop` / `WaveSimCuda.c_prop` of Model/WaveIO.lean (run by the driver on the raw memory and tables of real objects of both classes: C06 clause `path-tie-cprop`, driver `wio-cprop` — waveform of every region and every accumulator of every lane; the same cases evaluate the hypotheses of `activity_all_circuits`: tags `cprop-hyp:*`);
 `WaveIO.sched ops levels` = the rows in the order a lane sees them; `laneMem` / `laneTrace` = the lane's memory column after the rows /
 the rows with the `(nrise, nfall)` the evaluator returned for them. -/
 open KV.WaveIO in
